@@ -992,6 +992,18 @@ is_job_invalid(IMB_MGR *state, const IMB_JOB *job, const IMB_CIPHER_MODE cipher_
                                         return 1;
                                 }
                         }
+                } else if (job->msg_len_to_cipher_in_bytes == 0 &&
+                           job->msg_len_to_hash_in_bytes >= 8) {
+                        /* No ciphering: CRC is still computed over the payload,
+                         * which is then bounded by the BIP length */
+                        const uint64_t xgem_hdr = *(
+                                const uint64_t *) (job->src + job->hash_start_src_offset_in_bytes);
+                        const uint16_t pli = BSWAP64(xgem_hdr) >> 50;
+
+                        if (pli > 4 && pli > job->msg_len_to_hash_in_bytes - 8) {
+                                imb_set_errno(state, IMB_ERR_JOB_PON_PLI);
+                                return 1;
+                        }
                 }
                 break;
         case IMB_CIPHER_ZUC_EEA3:
